@@ -207,6 +207,11 @@ class SingularityCutter(Worker):
         queue = deque()
         visited = dict([(v, False) for v in self.feat_detector.feature_vertices])
         parent = dict([(v, None) for v in self.feat_detector.feature_vertices])
+        for v in self.input_mesh.boundary_vertices:
+            # the border already belongs to the cut : border vertices are roots of the forest, so that
+            # the tree never links two of them through interior feature edges (this would split the surface)
+            if v in visited:
+                queue.append((v,None))
         for v in closest_v:
             queue.append((v,None))
         while len(queue)>0:
